@@ -381,6 +381,14 @@ def b_list(ex, st, args, kwargs, node):
         st.assume(z3.ForAll([x], st.DK[a][x] == z3.Contains(seq, z3.Unit(x))))
         st.assume(z3.Length(seq) == st.DSZ[a])
         return [(st, new_list_from_seq(st, seq, ty.t))], []
+    if isinstance(ty, Ty.TDict) and not isinstance(v.ty, Ty.TOpt) and not (v.has_py and isinstance(v.py, dict)):
+        # list(d) / list(d.keys()): some sequence with exactly the dict's keys, one entry per key (order unspecified)
+        a = va(v.term)
+        seq = fresh('fromkeys', SeqVal)
+        x = fresh('lk', Val)
+        st.assume(z3.ForAll([x], st.DK[a][x] == z3.Contains(seq, z3.Unit(x))))
+        st.assume(z3.Length(seq) == st.DSZ[a])
+        return [(st, new_list_from_seq(st, seq, ty.k))], []
     raise Unsupported('list() of %r' % (v.ty,))
 
 
